@@ -42,7 +42,7 @@ def find_time_after_dst_switch(dt: SystemDateTime | Date, time: Time) -> SystemD
         t = t.add(minutes=1, ignore_dst=True)
 
         try:
-            return SystemDateTime(dt.year, dt.month, dt.day, t.hour, t.minute, disambiguate='raise')
+            return SystemDateTime(t.year, t.month, t.day, t.hour, t.minute, disambiguate='raise')
         except SkippedTime:
             continue
 
